@@ -183,7 +183,7 @@ func genCase(t *rapid.T) Case {
 		c = Case{Kind: "bmp.decoder", Encoded: stdgen.BMP(m), Want: pixels(m, false), Width: m.Bounds().Dx(), Height: m.Bounds().Dy(), PixFmt: fmtBGRA8,
 			Features: []string{"model-" + model}, Encoder: "x/image/bmp"}
 	default: // hashers
-		payload := stdgen.Payload(t, "pl", 90000)
+		payload := stdgen.Payload(t, "pl", 200000)
 		kind := rapid.SampledFrom([]string{"crc32.ieee_hasher", "crc64.ecma_hasher", "adler32.hasher", "sha256.hasher"}).Draw(t, "hasher")
 		var want []byte
 		switch kind {
